@@ -26,7 +26,7 @@ func verifStubProbe(lb *LoadBalancer, backend *Backend) (*http.Response, error) 
 	return nil, errors.New("verif: connection refused")
 }
 
-func verifStoppableLB(n int, withPool bool) (*LoadBalancer, []*verifConn) {
+func verifStoppableLB(n int, withPool bool, realPool bool) (*LoadBalancer, []*verifConn) {
 	lb := verifBareLB(0)
 	lb.ctx, lb.cancel = context.WithCancel(context.Background())
 	lb.healthChecks.activeEnabled = true
@@ -39,7 +39,11 @@ func verifStoppableLB(n int, withPool bool) (*LoadBalancer, []*verifConn) {
 	}
 	var conns []*verifConn
 	if withPool {
-		lb.wsPool = &WebSocketPool{pools: make(map[string]*connPool), maxIdle: 2, maxActive: 10, idleTimeout: time.Minute}
+		if realPool {
+			lb.wsPool = NewWebSocketPool(2, 10, time.Minute) // the real constructor (starts the cleanup goroutine)
+		} else {
+			lb.wsPool = &WebSocketPool{pools: make(map[string]*connPool), maxIdle: 2, maxActive: 10, idleTimeout: time.Minute}
+		}
 		for i := 0; i < 2; i++ {
 			c := &verifConn{id: i}
 			conns = append(conns, c)
@@ -57,7 +61,7 @@ func VerifC19Stop(mode int, n int) {
 	atomic.StoreInt32(&verifProbesSent, 0)
 	atomic.StoreInt32(&verifStopReturned, 0)
 	atomic.StoreInt32(&verifProbeAfterStop, 0)
-	lb, conns := verifStoppableLB(n, true)
+	lb, conns := verifStoppableLB(n, true, mode != 0)
 	stopped := int32(0)
 	switch mode {
 	case 0: // a tick racing Stop
